@@ -170,6 +170,11 @@ fn step_empty(first: K, n_suffix: usize) {
     let s = stream_with_first(first, n_suffix);
     let exp = ref_step(&s, false, false);
     let mut p = PreProcessor::new(s);
+    if !unsafe { crate::verif_common::G_STUBS_ON } {
+        // native replay (no stubs): start from a set that already holds an unrelated macro, so that
+        // "#define ADDS its macro" is observable on the real HashSet
+        p.macros.insert(EcoString::inline("Z"));
+    }
     let before = p.cursor();
     let kind = p.eat();
     let after = p.cursor();
@@ -201,7 +206,8 @@ fn step_empty(first: K, n_suffix: usize) {
             let (nd, dn) = if stubs_on {
                 unsafe { (G_DEFINES, G_DEFINED_N) }
             } else {
-                (p.macros.len() as u32, p.macros.contains("N"))
+                assert!(p.macros.contains("Z"), "C15: a step never removes an earlier macro");
+                (p.macros.len() as u32 - 1, p.macros.contains("N"))
             };
             if defines {
                 assert!(nd == 1, "C15: an enabled #define defines its macro");
@@ -326,3 +332,47 @@ fn c15_pp_unterminated_enabled() {
     unterminated_enabled(0);
     unterminated_enabled(2);
 }
+
+// ---------------------------------------------------------------------------
+// steps with a NON-empty macro set {M} (one real HashSet insert with a concrete key, then real
+// lookups of "M" / "N"): the (ifdef, defined) and (ifndef, defined) cases that the empty-set
+// steps cannot reach.  Minutes per harness (hashing): thorough tier.
+
+fn step_defined(first: K, n_suffix: usize) {
+    unsafe {
+        G_DEFINES = 0;
+    }
+    let s = stream_with_first(first, n_suffix);
+    let exp = ref_step(&s, true, false);
+    let mut p = PreProcessor::new(s);
+    p.macros.insert(EcoString::inline("M"));
+    let kind = p.eat();
+    match exp {
+        Exp::Tok { kind: ek, consumed, .. } => {
+            assert!(kind == ek, "C15: step returns the kind the reference evaluation selects (M defined)");
+            assert!(p.token_stream.pos == consumed, "C15: step consumes exactly the reference region (M defined)");
+            assert!(p.error.is_none());
+            kani::cover!(consumed >= 3, "W: a region is skipped although a macro is defined");
+        }
+        Exp::Err(_) => {
+            assert!(kind == K::Error && p.error.is_some(), "C15: error reported (M defined)");
+        }
+        Exp::NoClaim => {}
+    }
+    std::mem::forget(p);
+}
+
+macro_rules! defined_harness {
+    ($name:ident, $first:expr, $n:expr) => {
+        #[kani::proof]
+        #[kani::unwind(10)]
+        #[kani::stub(crate::preprocessor::PreProcessor::error, crate::preprocessor::PreProcessor::verif_error_stub)]
+        #[kani::stub(std::hash::RandomState::new, crate::verif_common::fixed_random_state)]
+        fn $name() {
+            step_defined($first, $n);
+        }
+    };
+}
+
+defined_harness!(c15_pp_ifdef_defined_t, K::Ifdef, 3);
+defined_harness!(c15_pp_ifndef_defined_t, K::Ifndef, 3);
